@@ -39,6 +39,20 @@ pub fn tree_cost(n: usize, lv: (u32, u32)) -> f64 {
     ((1u64 << h_of(lv.1)) * (p * ((1 << w) - 1) + p + 2)) as f64
 }
 
+/// id of the known LM-OTS checksum-shift deviation (n, w) this shape touches, if any
+pub fn kf_of(shape: &Shape) -> &'static str {
+    let n = shape.n();
+    for l in &shape.levels {
+        match (n, w_of(l.0)) {
+            (16, 1) => return "lmots-ls-n16-w1",
+            (16, 2) => return "lmots-ls-n16-w2",
+            (24, 1) => return "lmots-ls-n24-w1",
+            _ => {}
+        }
+    }
+    ""
+}
+
 impl Shape {
     pub fn n(&self) -> usize {
         hash_n(self.hash)
